@@ -51,7 +51,7 @@ Plan generate_plan(const std::string &prop, const std::string &tier, uint64_t ba
     std::string wn = ws[index % ws.size()];
     p.mode = pf.modes[(index / ws.size()) % pf.modes.size()];
     if (wn == "hasharr" && p.mode == "threads") p.mode = "seq";        // no locking in qhasharr
-    if (wn == "qlog") p.mode = "lockbal";
+    if (wn == "qlog" && p.mode != "threads") p.mode = "lockbal";
     std::unique_ptr<World> w(make_world(wn));
     w->gen_cfg(r, prop, p.mode, p.cfg);
     if (tier == "thorough" && p.mode == "seq" && r.chance(1, 3)) p.cfg.set("nops", p.cfg.get("nops") * 3);
@@ -143,6 +143,11 @@ static void run_seq_body(const Plan &p, World &w, Ctx &x, const SeqOpts &so) {
             if (!ok) x.fail("ctor-failed", "harness", "constructor failed without an injected fault");
         } else if (fired) x.st.add("fault.ctor_survived");
         created = true;
+        if (ts && w.sut_sees_mutex() && w.sut_mutex() == nullptr) {
+            // a constructor asked for a thread-safe container and returned one without a lock (e.g. after the allocation of the
+            // mutex failed): that is neither "completed correctly" nor "reported failure"
+            x.fail("no-lock", x.o_enomem ? "enomem" : "lock", "the constructor returned a container created with the thread-safe option that has no lock" + std::string(fired ? " (after an injected allocation failure)" : ""));
+        }
         for (size_t i = 0; i < ops.size(); i++) {
             x.cur_op = (int)i; x.cur_opname = w.opnames()[ops[i].k];
             std::unique_ptr<Model> before;
